@@ -12,8 +12,8 @@ THEOREMS = ["C13_push_returns_own_value", "C13_push_index_fresh", "C13_pushes_ke
 RULE = ("(sequential) sessions on an original, its clone and a clone of the clone: random sequences of make_ref / make_mut / lending through the "
         "instance's delegation helper (a `&self` provided method whose body calls a required method answered with make_ref) / `&mut self` provided "
         "calls (AsMut path), each instance finally dropped normally or while its thread unwinds from a panic, with three value types "
-        "(two same-layout counted types and a zero-sized guard whose Drop is counted), lengths up to 40 (thorough: one run of 5000 values as a smoke "
-        "test of the iterative drop); after EVERY step the harness re-reads the contents through ALL references it still holds and prints the number "
+        "(two same-layout counted types and a zero-sized guard whose Drop is counted), lengths up to 40 (thorough: one run of 400; plus 5000 / 50000 values on a 64 KiB stack as a "
+        "test of the iterative walk and drop); after EVERY step the harness re-reads the contents through ALL references it still holds and prints the number "
         "of live lent values; instances are dropped at the end, clones first. (concurrent) 2-8 threads lend values through one shared &Unimock under "
         "the controlled scheduler (one step per OnceCell::try_insert): all interleavings for small programs, random schedules beyond; trace, the values "
         "each thread reads back after the join, distinctness of the addresses, live counts. distinct = canonical JSON; non-trivial = a reference is "
@@ -108,7 +108,8 @@ def gen_cases(rng, tier):
     for _ in range(150 if tier == "quick" else 1500):
         cases.append(thread_case(rng, rng.randint(2, 8), rng.randint(1, 3)))
     if tier == "thorough":
-        big = {"kind": "seq", "sessions": [[("r", i % 2, i) for i in range(5000)]]}
+        # (the model prints every held value after every step: quadratic; the 50000-value run is the BIG mode below)
+        big = {"kind": "seq", "sessions": [[("r", i % 2, i) for i in range(400)]]}
         cases.append(big)
     return cases
 
